@@ -11,7 +11,9 @@ MIRRORS = {
             # the dependency graph the schedule is computed from carries every message of every window; the recorded group is the group the step
             # saw; the per-episode graphs keep the episode order of the windowed graphs
             ("c14", {"C14.convert": ("C01.chain", "WindowedGraph.to_graph")}, ()), ("c03", {"C03.window": "C01.protocol"}, ()),
-            ("c07", {"C07.modes": ("C01.chain", "episode order")}, ())],
+            ("c07", {"C07.modes": ("C01.chain", "episode order")}, ()),
+            # what a replayed step reads is what the producers wrote where the readers look: the ring writers
+            ("c08", {"C08.writers": "C01.buffer"}, ())],
     # what a selector takes depends on the queued times only (tie tables), and nothing of an earlier episode survives a reset
     "C02": [("c03", {"C03.tie": "C02.future"}, ()), ("c05", {"C05.reset": "C02.handoff"}, ())],
     # a blocking step waits for the arrival of every message it consumes
@@ -24,15 +26,23 @@ MIRRORS = {
     # generated delays are the clipped samples of the configured distributions
     "C12": [("c15", {"C15.nonneg": ("C12.scan", "StaticDist.sample")}, ())],
     # a delay set between episodes is what the next episode simulates: no pre-drawn sample of the old distribution survives a reset
-    "C16": [("c05", {"C05.reset": ("C16.phase", "node.q_sample")}, ())],
+    "C16": [("c05", {"C05.reset": ("C16.phase", "node.q_sample")}, ()),
+            # the trainable delay a graph is initialised with is the configured distribution's (not the expected delay used for the phases)
+            ("c10", {"C10.saturate": ("C16.bind", "default init_delays")}, ())],
     # every partition is selected once (clip of the step counter) and every generation of it is visited once, in order
     "C06": [("c09", {"C09.clip": "C06.count"}, ()), ("c07", {"C07.order": "C06.count"}, ())],
     # window length of a trainable connection
     "C07": [("c10", {"C10.window": "C07.window"}, ()),
             # a scheduled vertex runs: the only slots a generation passes over are the supervisor's and those of the kinds the user skips
-            ("c06", {"C06.count": ("C07.order", "_run_generation: only")}, ())],
+            ("c06", {"C06.count": ("C07.order", "_run_generation: only")}, ()),
+            # the dependency graph carries every message of every window; every partition of the horizon can be selected
+            ("c14", {"C14.convert": ("C07.edges", "WindowedGraph.to_graph")}, ()), ("c09", {"C09.clip": "C07.order"}, ())],
+    # a window names producers that ran before the reader (the dependency graph has every window entry); a new episode starts from the
+    # stored initial state, rings included
+    "C08": [("c14", {"C14.convert": ("C08.order", "WindowedGraph.to_graph")}, ()), ("c19", {"C19.autoreset": ("C08.writers", "graph state")}, ())],
     # the delay given to init() through the params is the one the steps see
-    "C09": [("c10", {"C10.apply": "C09.params"}, ())],
+    # ... and every step sees the sequence number of its slot, whichever step the episode was started from
+    "C09": [("c10", {"C10.apply": "C09.params"}, ()), ("c06", {"C06.result": ("C09.api", "_run_node: step sees")}, ())],
     # recorded times are the times the step used
     "C13": [("c04", {"C04.record": "C13.origin"}, ())],
     # a trainable delay stays inside [min, max] (>= 0)
